@@ -136,7 +136,7 @@ def router_execute(case):
 
 
 def subchecks(tier):
-    prof = common.full_profile(max_nodes=4)
+    prof = common.full_profile("C09", max_nodes=4)
     prof.weights.update({"routing_objects": 0.7, "process_routing": 0.5, "flexible_routing": 0.5, "cc_after": 0.4, "ps": 0.2,
                          "inf": 0.3, "capacity": 0.4, "prio_reroute": 0.5, "jockeying": 0.5})
     return [
